@@ -1,5 +1,5 @@
 (* Props/C05.v — stream reassembly is independent of segmentation and session length. *)
-Require Import Base.Bytes Net.Frame Net.FrameProofs Net.Framed Net.FramedProofs Net.Concrete Gen.NetConsts.
+Require Import Base.Bytes Net.Frame Net.FrameProofs Net.Framed Net.FramedProofs Net.Async Net.NoHoldBack Net.Concrete Gen.NetConsts.
 Local Open Scope N_scope.
 
 (* For every packet layer that never panics (C04), every mode, every list of complete frames,
@@ -49,3 +49,28 @@ Example c05_example :
     [Data [1;3;0]; RdErr 7; Data [0;1;3]; Data [1;2]; Eof]
   = [Ret (RIo 7); Wrote [1;3;0;0]; Ret (RPacket (0, CKeep)); Ret (RPacket (1, COther)); Ret RDisconnected].
 Proof. vm_compute. reflexivity. Qed.
+
+(* no packet waits for more traffic: a frame that is completely in the receive buffer is delivered by the next read() with
+   no further input from the transport (a peer that sends nothing more until its packets have been read is not kept waiting).
+   Blocking connection: the result is the frame's own, the rest of the buffer stays, the transport script is untouched ... *)
+Theorem c05_buffered_frame_is_served_without_more_input :
+  forall (packet : Type) (parse : bytes -> res packet) (ver_of : packet -> option N)
+         (is_keepalive : packet -> bool) (version : N) (m : mode) (verify : bool) (pong : bytes),
+  (forall b, parse b <> Panic) ->
+  forall f rest tr, wf_frame m f ->
+    read packet parse ver_of is_keepalive version m verify pong (f ++ rest) tr
+      = (expected_frame packet parse ver_of is_keepalive version verify pong f, rest, tr).
+Proof. exact read_serves_buffered_frame. Qed.
+
+(* ... tokio connection: a fresh read() with nothing parked does not touch the read half and does not suspend in the transport
+   read - it completes, or waits for the WRITE half to take a keep-alive reply *)
+Theorem c05_buffered_frame_is_served_without_more_input_async :
+  forall (packet : Type) (parse : bytes -> res packet) (ver_of : packet -> option N)
+         (is_keepalive : packet -> bool) (version : N) (m : mode) (verify : bool) (pong : bytes),
+  (forall b, parse b <> Panic) ->
+  forall f rest (s : fstate packet) rs ws, wf_frame m f ->
+    fbuf s = f ++ rest -> pend_w s = [] -> pend_p s = None ->
+    let '(o, s', rs', ws', w) := poll_from packet parse ver_of is_keepalive version m verify pong Top s rs ws in
+    rs' = rs /\ o <> PPending InRead.
+Proof. exact poll_serves_buffered_frame. Qed.
+
